@@ -28,6 +28,14 @@ ALLPOL = ["suit-send-record-success", "suit-send-record-failure", "suit-send-sys
 WRONG = "0badc0de"
 
 
+def widen(env: bytes) -> bytes:
+    """The same envelope in a form the tool would not write itself: the head of the top-level map in the non-preferred two-byte
+    form (a5 -> b8 05).  Every member keeps its bytes; a file is what it is, whatever a re-serialisation of it would look like."""
+    if len(env) > 3 and env[:2] == b"\xd8\x6b" and 0xA0 <= env[2] <= 0xB7:
+        return env[:2] + bytes([0xB8, env[2] - 0xA0]) + env[3:]
+    return env
+
+
 def blob(size: int, seed: int) -> bytes:
     out = bytearray()
     k = 0
@@ -69,6 +77,7 @@ class Builder:
         self.n = 0
         self.files = {}  # path -> bytes written (inputs the description names)
 
+    noncanon = False  # True: a dependency given by PATH is a valid envelope that is not what the tool itself would write (widen())
     symlink = False   # True: every file the description names is a SYMBOLIC LINK to the file that holds the bytes
 
     def _file(self, data: bytes, name: str | None = None) -> str:
@@ -157,7 +166,10 @@ class Builder:
                 ref = cdesc
                 integrated_deps[name] = cdesc
             else:
-                path = self._file(creator(copy.deepcopy(cdesc)), f"dep_{self.n}_{level}_{k}_{name.strip('#')}.suit")
+                cbytes = creator(copy.deepcopy(cdesc))
+                if self.noncanon:
+                    cbytes = widen(cbytes)
+                path = self._file(cbytes, f"dep_{self.n}_{level}_{k}_{name.strip('#')}.suit")
                 ref = path
                 integrated_deps[name] = path
             validate += [{"suit-directive-set-component-index": idx},
